@@ -394,8 +394,8 @@ theorem pinv_updateRegistration {s : State} {o : Obj} (h : PInvX s (some o)) :
       split
       · next hm => exact pinv_register h (by simp [hk]) hf hm
       · next hm =>
-        have := pinv_unregister h hf hm false
-        simp only [unregister, baseDiscard, Bool.false_eq_true, if_false] at this ⊢; exact this
+        have := pinv_unregister h hf hm true
+        simp only [unregister, baseDiscard, if_true] at this ⊢; exact this
     · next hf =>
       have hp := pinv_epoll_closed h hk hf
       split
